@@ -352,3 +352,38 @@ fn kx_m_advance_mut() {
     kani::cover!(n > 0);
     core::mem::forget(b);
 }
+
+// @ob props=C01,C14,C09,C11 tier=quick kind=Kinf fns=BytesMut::as_slice,Deref_for_BytesMut::deref,AsRef<[u8]>_for_BytesMut::as_ref,Borrow<[u8]>_for_BytesMut::borrow,BytesMut::len,BytesMut::capacity,BytesMut::is_empty,Buf_for_BytesMut::chunk,Buf_for_BytesMut::remaining
+#[kani::proof]
+fn kx_bytes_mut_as_slice_is_the_view() {
+    // the contract every Verus unit imports for BytesMut: all slice accessors return exactly (ptr, len)
+    let arc: bool = kani::any();
+    let (b, g) = if arc { any_marc() } else { any_mvec() };
+    let p = g.base as usize + g.off;
+    let s = b.as_slice();
+    assert!(s.as_ptr() as usize == p && s.len() == g.len);
+    let d: &[u8] = &b;
+    let a: &[u8] = b.as_ref();
+    let w: &[u8] = core::borrow::Borrow::borrow(&b);
+    let c: &[u8] = Buf::chunk(&b);
+    assert!(d.as_ptr() as usize == p && d.len() == g.len && a.as_ptr() as usize == p && a.len() == g.len);
+    assert!(w.as_ptr() as usize == p && w.len() == g.len && c.as_ptr() as usize == p && c.len() == g.len);
+    assert!(b.len() == g.len && b.capacity() == g.cap && b.is_empty() == (g.len == 0) && Buf::remaining(&b) == g.len);
+    core::mem::forget(b);
+}
+
+// @ob props=C01,C03,C07 tier=quick kind=Kinf fns=BytesMut::freeze,rebuild_vec,From<Vec<u8>>for_Bytes,Bytes::advance
+#[kani::proof]
+fn kx_mvec_freeze_spare_capacity_sym() {
+    // inline-Vec form with spare capacity (len < cap), SYMBOLIC allocation size: freeze re-labels the
+    // allocation as a shared Bytes (control block {base, vcap, 1}) advanced by the front offset - no copy
+    let (mut b, g) = any_mvec();
+    kani::assume(g.len < g.cap);
+    let (i, x) = plant_m(&b);
+    let f = b.freeze();
+    assert!(f.as_ptr() as usize == g.base as usize + g.off && f.len() == g.len);
+    if g.len > 0 { assert!(f[i] == x && kani::mem::same_allocation(f.as_ptr(), g.base as *const u8)); }
+    assert!(f.is_unique());
+    kani::cover!(g.off > 0 && g.len > 0);
+    core::mem::forget(f);
+}
